@@ -1,6 +1,6 @@
 (* C16 (AUROC part) -- the multi-task / multi-class AUROC kernel decomposes into single rows. *)
 From Coq Require Import ZArith List Bool QArith Qcanon Permutation.
-From TE Require Import Base.Val Base.Nd Models.Curves Proofs.CurvesP.
+From TE Require Import Base.Val Base.Nd Models.Curves Proofs.CurvesP Proofs.CurvesPR Proofs.CurvesMC.
 Import ListNotations.
 
 (* torch's flattened dst.masked_scatter_(M', src[M]) writes into row i exactly row i's selected
@@ -28,6 +28,11 @@ Theorem binary_auroc_task_slice : forall nt cols i, cols <> [] -> (i < nt)%nat -
   | _ => False end.
 Proof. exact bauroc_task_slice. Qed.
 
+(* the vectorised multiclass PR-curve pipeline (flip, pad, flattened boolean select, split by row
+   counts) = the binary pipeline applied to each row; any sorted rows, any tie structures *)
+Theorem prc_multiclass_decomposes : forall R : list (list sample), mc_prc_sorted R = curves3 (map prc_sorted R).
+Proof. exact mc_prc_sorted_rowwise. Qed.
+
 (* rows with different tie structure: row 0 constant, row 1 distinct, row 2 all-positive *)
 Example kernel_rows_example :
   let w := mkq 1%Z 1%positive in
@@ -41,3 +46,4 @@ Print Assumptions masked_scatter_rowlocal.
 Print Assumptions auroc_kernel_is_rowwise.
 Print Assumptions auroc_multitask_decomposes.
 Print Assumptions binary_auroc_task_slice.
+Print Assumptions prc_multiclass_decomposes.
